@@ -11,7 +11,7 @@ rc_all=0
 for id in "$@"; do
   VERIF_REPO="$S" VERIF_OUT="$O" timeout ${TIMEOUT:-1800} /verif/check "$id" --tier "${TIER:-quick}" > "$O/$id.log" 2>&1
   rc=$?
-  echo "MUTCHECK patch=$(basename "$(dirname "$patch")")/$(basename "$patch") check=$id exit=$rc $(grep -c '^VIOLATION' "$O/$id.log") violations; $(grep -m1 'site=' "$O/$id.log" | cut -c1-200)"
+  echo "MUTCHECK patch=$(basename "$(dirname "$patch")")/$(basename "$patch") check=$id exit=$rc $(grep -c '^VIOLATION' "$O/$id.log") violations; $(grep -m1 'site=' "$O/$id.log" | cut -c1-200)"; grep -o "site=[^ ]*" "$O/$id.log" | sort | uniq -c | tr "\n" ";"; echo
   [ $rc -ne 1 ] && rc_all=1
 done
 rm -rf "$S" "$O"
